@@ -42,11 +42,20 @@ checks.update({
  "C18": dict(level="exploration", ref="3 C18, Appendix B", tech="runtime monitoring under virtual time: the real EventLoop::poll() (v4 and v5) against a scripted broker over an in-memory transport; timestamped wire/event log judged by pure arithmetic on virtual timestamps", note=S3_NOTE,
              text="PINGREQ at least once per keep-alive interval, failure reported within two intervals after the broker (or the transport) goes silent, no keep-alive failure while every PINGREQ is answered in time, no pings with keep-alive zero, connect/handshake timeouts reported at the configured time; PINGRESP delays {0,K/4,K/2,K-1ms,K+1ms,never}, background traffic phases on a K/8 grid, silence at every grid phase, K in {1,2,5,60}s."),
 })
+S2_NOTE = ("Trusted base: the harness's M-client model (live set of accepted publishes keyed by unique payload ids) and its mirror of the event loop's request gate "
+           "(inflight < max && no collision) for the state-machine substrate; the real MqttState (v4 and v5) is driven through its public API, every call under catch_unwind "
+           "with overflow checks on. Held on the histories counted in the evidence file.")
+checks.update({
+ "C02": dict(level="exploration", ref="3 C02, Appendix B", tech="runtime monitoring: the real MqttState (v4/v5) driven by seeded hostile publish/ack/reconnect histories; after every call the live set of accepted publishes must be contained in what the state holds for retransmission (clean() on a clone + collision + pending)", note=S2_NOTE,
+             text="After every handle_* call: every accepted, not finally acknowledged QoS1/2 publish (unique payload id) is in flight or held for retransmission, inflight accounting is exact, and across simulated reconnects with session present every live publish and pending release is handed back for retransmission with its original id; ack orders in/out of order, duplicate, unsolicited, wrong kind, v5 failure reason codes, id wrap-around and collisions. State-machine substrate (S2); the byte-level crash-point enumeration through the real event loop is C11's check."),
+ "C07": dict(level="exploration", ref="3 C07", tech="runtime monitoring: wire-side shadow of unacknowledged packet ids and state-side invariants of the real MqttState (v4/v5) after every call, with the event loop's request gate mirrored", note=S2_NOTE,
+             text="Every packet the state machine hands to the wire has an id in 1..=limit, no two simultaneously unacknowledged publishes share an id (unacknowledged = until PUBACK / PUBCOMP), at most `limit` unacknowledged, no request accepted while the window is full or a collision is pending and acceptance resumes after a freeing ack, collision pending only while its id is genuinely held; limits 1..65535, v5 receive-maximum lowered by CONNACK."),
+ "C10": dict(level="exploration", ref="3 C10", tech="runtime monitoring: broker packet sequences of every type/id fed to the real MqttState (v4/v5) and through the real EventLoop over an in-memory transport; incoming/outgoing event logs aligned with the wire log", note=S2_NOTE + " The event-loop half uses the S3 substrate (scripted broker, virtual time).",
+             text="Each received packet surfaced exactly once and in wire order; QoS1 -> PUBACK, QoS2 -> PUBREC, known PUBREL -> PUBCOMP with the right id (none of them in manual-ack mode); unsolicited acks are errors that leave the bookkeeping unchanged and never panic; every written packet has exactly one Outgoing notification of the matching kind/id and nothing is announced that was not written (judged on transports that never failed)."),
+ "C11": dict(level="fault_enumeration", ref="3 C11, Appendix B", tech="runtime monitoring with fault enumeration: the real EventLoop (v4/v5) over an in-memory transport under virtual time; for every history the connection is cut at every byte offset of both directions, then the wire log of the resumed connection is compared with the pre-failure send order", note=S3_NOTE,
+             text="For sampled publish/ack histories (ids wrapping 0-3 times, requests left in the channel) the first connection is failed at EVERY byte of both directions (~110 crash points per history, exhaustive per history), optionally again during replay; on resume with session present every unacknowledged publish must precede any later request, keep id/QoS/topic, and (v4, in-order broker) keep the original order; with session absent nothing carried over may be sent and the state must be clean."),
+})
 pending = {
- "C02": "check being built (client state machine / event loop substrate S2/S3)",
- "C07": "check being built (client state machine / event loop substrate S2/S3)",
- "C10": "check being built (client state machine / event loop substrate S2/S3)",
- "C11": "check being built (event loop substrate S3)",
  "C16": "check being built (full-stack substrate S6)",
  "C19": "check being built (full-stack substrate S6)",
  "C20": "check being built (full-stack substrate S6)",
